@@ -38,6 +38,14 @@ def Ipts.unpack (t : Ipts) (buf : Bytes) : R Ipts :=
     | .error e => .error e
   | .none => .error .attribute
 
+/-- `if self.ipts is not None: self.ipts.unpack(buffer[:8]); offset += 8` — the decoded time stamp and
+    the offset of what follows it -/
+def unpackTs (ipts : Ipts) (buf : Bytes) : R (Ipts × Nat) :=
+  if ipts = .none then .ok (.none, 0) else
+  match ipts.unpack (buf.take 8) with
+  | .ok i => .ok (i, 8)
+  | .error e => .error e
+
 /-- the time stamp object the UART / 1553 constructors create for `ipts_source`
     (`TS_CH4` → `RTCTime()`, `TS_IEEE1558` → `PTPTime()`) -/
 def iptsOfSource (src : Nat) : Option Ipts :=
